@@ -4,7 +4,13 @@ package main
 // canonical atoms of the decision; it is evaluated on every feasible path of the function it
 // describes. Paths that end in an error return (store failure) are outside the tables.
 
-import "strings"
+import (
+	"go/ast"
+	"go/types"
+	"strings"
+
+	"golang.org/x/tools/go/packages"
+)
 
 var stdRename = [][2]string{
 	{`await\(Store:[A-Za-z+|*]+\)\.Store\.Results\[0\]\.Read[A-Za-z]+\.RowsReturned`, "read.rows"},
@@ -220,3 +226,45 @@ var tblTimedoutState = &tableSpec{
 		return "Timedout"
 	},
 }
+
+// senderOutcome: a path through SenderWorker.Process either completes the hand-off with an error
+// (it assigns the entry's Error) or hands the message to a plugin.
+func senderOutcome(pk *packages.Package, env *provEnv, self types.Object, p *codePath) string {
+	out := "handed-to-plugin"
+	for _, nd := range p.Nodes {
+		if as, ok := nd.(*ast.AssignStmt); ok {
+			for _, l := range as.Lhs {
+				if se, ok := ast.Unparen(l).(*ast.SelectorExpr); ok && se.Sel.Name == "Error" {
+					out = "error-completion"
+				}
+			}
+		}
+	}
+	return out
+}
+
+var tblSenderProcess = &tableSpec{
+	Name: "sender-process", Pkg: pkgSender, Recv: "SenderWorker", Func: "Process", Outcome: senderOutcome, MinPaths: 8,
+	Rename: [][2]string{
+		{`util\.UnmarshalChain\([^()]*\)`, "decode"},
+		{`param:w\.plugins\[[^\]]*\]`, "plugin"},
+		{`^Plugin\.Enqueue\(.*\)$`, "accepted"},
+		{`^\((?:var:err|err\([a-zA-Z.]*[eE]ncode[A-Za-z]*\(.*\)\)) == nil\)$`, "(encode == nil)"},
+		{`^\(err\(json\.Marshal\(.*\)\) == nil\)$`, "(encode == nil)"},
+	},
+	Why: "C19: an undecodable or null receiver, an unresolvable address, a receiver type without a plugin, an unencodable body and a full plugin queue each complete the hand-off with an error (retried); only otherwise is the message handed to the plugin",
+	Spec: func(v *valuation) string {
+		if !v.B("(decode == nil)") {
+			return "error-completion"
+		}
+		if v.B("(var:logicalRecv == nil)") && v.B("(var:physicalRecv == nil)") {
+			return "error-completion"
+		}
+		if v.B("(var:recv == nil)") || v.B("(plugin == nil)") {
+			return "error-completion"
+		}
+		if !v.B("(encode == nil)") || !v.B("accepted") {
+			return "error-completion"
+		}
+		return "handed-to-plugin"
+	}}
